@@ -2,7 +2,7 @@
    from the case's arguments, the canonical observation the Rust harness
    printed for the implementation. Everything is numbers: arguments are lists
    of integers, observations are lists of integers. Definitions only. *)
-Require Import BV.Model.Base BV.Model.SrcB BV.Model.Length BV.Model.Tag BV.Model.Twos BV.Model.Int.
+Require Import BV.Model.Base BV.Model.SrcB BV.Model.Length BV.Model.Tag BV.Model.Twos BV.Model.Int BV.Model.BitStr BV.Model.Oid.
 Local Open Scope Z_scope.
 
 Definition zs_to_ns (l : list Z) : list N := map Z.to_N l.
@@ -123,6 +123,33 @@ Definition s_c15_decode (args : list (list Z)) : list Z :=
   enc_res enc_bytes (prim_decode integer_from_primitive c) ++
   enc_res enc_bytes (prim_decode unsigned_int_from_primitive c).
 
+(* ---- C19 ---- *)
+Definition s_c19_decode (args : list (list Z)) : list Z :=
+  let m := argm 0 args in let c := argb 1 args in
+  enc_res (fun v : bitstr => enc_n (bs_unused v) ++ enc_bytes (bs_octets v) ++ enc_n (bs_bit_len v)
+                             ++ enc_n (bs_octet_len v))
+          (prim_decode (bit_from_prim m) c)
+  ++ enc_res enc_unit (prim_decode (bit_skip_prim m) c) ++ [1; 1].
+Definition s_c19_bit (args : list (list Z)) : list Z :=
+  let u := argn 0 args in let bits := argb 1 args in let i := argn 2 args in
+  enc_res (fun v => enc_bool (bs_bit v i) ++ enc_n (bs_bit_len v)) (bit_new u bits).
+Definition s_c19_enc (args : list (list Z)) : list Z :=
+  let u := argn 0 args in let bits := argb 1 args in
+  enc_res (fun v => enc_bytes (bs_write v) ++ enc_n (bs_encoded_len v)) (bit_new u bits).
+
+(* ---- C20 ---- *)
+Definition s_c20_decode (args : list (list Z)) : list Z :=
+  let c := argb 0 args in
+  enc_res enc_bytes (prim_decode oid_from_prim c) ++ enc_res enc_unit (prim_decode oid_skip_prim c).
+Definition s_c20_skipif (args : list (list Z)) : list Z :=
+  enc_res enc_unit (prim_decode (oid_skip_if (argb 0 args)) (argb 1 args)).
+Definition s_c20_fromstr (args : list (list Z)) : list Z :=
+  enc_res enc_bytes (oid_from_str (argb 0 args)).
+Definition enc_arc (o : option N) : list Z := match o with None => [-1] | Some v => [Z.of_N v] end.
+Definition s_c20_display (args : list (list Z)) : list Z :=
+  enc_res (fun l => Z.of_N (len l) :: flat_map enc_arc l ++ Z.of_N (len l) :: flat_map enc_arc l)
+          (oid_display (argb 0 args)).
+
 Definition run_stream (sid : N) (args : list (list Z)) : list Z :=
   match sid with
   | 1201%N => s_c12_new args
@@ -134,6 +161,13 @@ Definition run_stream (sid : N) (args : list (list Z)) : list Z :=
   | 1403%N => s_c14_null args
   | 1404%N => s_c14_enc args
   | 1406%N => s_c14_skipif args
+  | 1901%N => s_c19_decode args
+  | 1902%N => s_c19_bit args
+  | 1903%N => s_c19_enc args
+  | 2001%N => s_c20_decode args
+  | 2002%N => s_c20_skipif args
+  | 2003%N => s_c20_fromstr args
+  | 2004%N => s_c20_display args
   | 1501%N => s_c15_cmp args
   | 1502%N => s_c15_pred args
   | 1503%N => s_c15_tryfrom args
